@@ -643,23 +643,46 @@ fn one_op<B: BmCtl>(w: &mut GmWorld<B>, tracked: bool, step: usize) -> Step {
             let count = gen_nlen(room);
             let mut sink: Vec<u8> = vec![1, 2, 3];
             let moved = room.min(count);
-            // a Vec, or a sink that accepts only a few bytes per call (as a socket or pipe does)
-            let chunk = if cx().a(2) == 0 { usize::MAX } else { 1 + cx().a(40) as usize };
+            // a Vec, a sink that accepts only a few bytes per call (as a socket or pipe does), or a
+            // cursor over a caller-provided buffer (the position must advance chunk by chunk)
+            let sk = cx().a(3);
+            let chunk = if sk == 1 { 1 + cx().a(40) as usize } else { usize::MAX };
             let mut csink = ChunkedSink { got: vec![1, 2, 3], chunk };
-            let tag = if chunk == usize::MAX { "Vec".to_string() } else { format!("short-writing sink (<= {} bytes per call)", chunk) };
+            let mut cbuf = vec![0u8; count + 11];
+            cbuf[..3].copy_from_slice(&[1, 2, 3]);
+            let mut cur = std::io::Cursor::new(&mut cbuf[..]);
+            cur.set_position(3);
+            let tag = match sk {
+                0 => "Vec".to_string(),
+                1 => format!("short-writing sink (<= {} bytes per call)", chunk),
+                _ => "Cursor<&mut [u8]>".to_string(),
+            };
             if kind == 10 {
                 st.kind = "write_volatile_to(stream)";
                 st.desc = format!("write_volatile_to({:#x}, {}, {})", addr, tag, count);
-                st.got = if chunk == usize::MAX { go_n(catch(|| w.gm.write_volatile_to(ga, &mut sink, count))) } else { go_n(catch(|| w.gm.write_volatile_to(ga, &mut csink, count))) };
+                st.got = match sk {
+                    0 => go_n(catch(|| w.gm.write_volatile_to(ga, &mut sink, count))),
+                    1 => go_n(catch(|| w.gm.write_volatile_to(ga, &mut csink, count))),
+                    _ => go_n(catch(|| w.gm.write_volatile_to(ga, &mut cur, count))),
+                };
                 st.exp = Some(if room == 0 { GO::Iga } else { GO::Count(moved) });
             } else {
                 st.kind = "write_all_volatile_to(stream)";
                 st.desc = format!("write_all_volatile_to({:#x}, {}, {})", addr, tag, count);
-                st.got = if chunk == usize::MAX { go_u(catch(|| w.gm.write_all_volatile_to(ga, &mut sink, count))) } else { go_u(catch(|| w.gm.write_all_volatile_to(ga, &mut csink, count))) };
+                st.got = match sk {
+                    0 => go_u(catch(|| w.gm.write_all_volatile_to(ga, &mut sink, count))),
+                    1 => go_u(catch(|| w.gm.write_all_volatile_to(ga, &mut csink, count))),
+                    _ => go_u(catch(|| w.gm.write_all_volatile_to(ga, &mut cur, count))),
+                };
                 st.exp = Some(if room == 0 { GO::Iga } else if moved < count { GO::Partial(count, moved) } else { GO::Unit });
             }
-            let received = if chunk == usize::MAX { &sink } else { &csink.got };
-            if Some(&st.got) == st.exp.as_ref() && received[3..] != w.model_read(addr, moved)[..] {
+            let cpos = (cur.position() as usize).min(count + 11);
+            let received: Vec<u8> = match sk {
+                0 => sink.clone(),
+                1 => csink.got.clone(),
+                _ => cbuf[..cpos].to_vec(),
+            };
+            if Some(&st.got) == st.exp.as_ref() && (received.len() < 3 || received[3..] != w.model_read(addr, moved)[..]) {
                 st.got = GO::Other("sink received wrong bytes".into());
             }
         }
@@ -763,8 +786,17 @@ fn one_op<B: BmCtl>(w: &mut GmWorld<B>, tracked: bool, step: usize) -> Step {
                     st.exp = Some(if off + 4 > size || !aligned { GO::Backend } else { GO::Unit });
                 }
                 4 => {
+                    // the crate's own slice source (exact form overridden) or a short-reading source that
+                    // goes through the default exact loop
                     let mut src = &data[..];
-                    st.got = go_u(catch(|| reg.read_exact_volatile_from(at, &mut src, n)));
+                    let chunk = 1 + cx().a(9) as usize;
+                    let mut chunked = Chunked { data: &data[..], chunk, calls: 0 };
+                    st.got = if cx().a(2) == 0 {
+                        go_u(catch(|| reg.read_exact_volatile_from(at, &mut src, n)))
+                    } else {
+                        st.desc.push_str(&format!(" from a short-reading source (<= {} bytes per call)", chunk));
+                        go_u(catch(|| reg.read_exact_volatile_from(at, &mut chunked, n)))
+                    };
                     st.exp = Some(if off.checked_add(n).map(|e| e > size).unwrap_or(true) { GO::Backend } else { GO::Unit });
                 }
                 6 => {
